@@ -3,7 +3,7 @@
    WFd = bookkeeping invariant (unique dict keys, current folder time stamps, only XML parts cached), evaluated as the
    boolean WFdb on every implementation state by the correspondence. *)
 From Coq Require Import List ZArith Bool. Import ListNotations.
-Require Import Package PkgManproof PkgZipproof Pkgproof Pkgproof4 Pkgproof5 PkgInstproof.
+Require Import Package PkgManproof PkgZipproof Pkgproof Pkgproof3 Pkgproof4 Pkgproof5 PkgInstproof.
 Open Scope Z_scope.
 
 (* save (zip or folder; path or buffer target; pretty or not) then open by path: the new document shows, part by part,
@@ -49,6 +49,16 @@ Theorem C03_zip_writer_exact : forall (bytes : Type) (c : container bytes) es, s
   forall n, lookup n (zip_plain bytes es) = lookup n (live bytes c).
 Proof. exact save_zip_lookup. Qed.
 Print Assumptions C03_zip_writer_exact.
+
+(* flat XML export (cannot be re-opened): contains the children of the four XML parts, in the order meta, settings, styles, content *)
+Theorem C03_flatxml_partial : forall (xml bytes kid : Type) (par : bytes -> xml) (kids : xml -> list kid) (c : container bytes),
+  flat_kids xml bytes kid par kids c =
+    (match lookup META (live bytes c) with Some b => kids (par b) | None => [] end)
+    ++ (match lookup SETTINGS (live bytes c) with Some b => kids (par b) | None => [] end)
+    ++ (match lookup STYLES (live bytes c) with Some b => kids (par b) | None => [] end)
+    ++ (match lookup CONTENT (live bytes c) with Some b => kids (par b) | None => [] end).
+Proof. exact flat_kids_order. Qed.
+Print Assumptions C03_flatxml_partial.
 
 (* reading a part never changes what the document holds (repaired code: F34) *)
 Theorem C03_reads_neutral : forall (xml bytes kid : Type) (par : bytes -> xml) (fs : fsys bytes kid) (n : name) (d : document xml bytes),
